@@ -12,7 +12,7 @@ def build(ctx):
     o2 = os.path.join(ctx.work, "strtod32.o")   # the build for targets without binary64 parsing
     ctx.sh(["gcc", "-std=c11", "-D_POSIX_C_SOURCE=200809L", "-g", "-O1", "-fsanitize=address", "-fno-omit-frame-pointer", "-fno-builtin", "-w", "-I" + R, "-DWITHOUT_ATOF64",
             "-include", "stdlib.h", "-Dstrtod=igv32_strtod", "-Datof=igv32_atof", "-c", os.path.join(R, "compat/libc/stdlib/strtod.c"), "-o", o2], timeout=300)
-    return ctx.cxx("drv_float", ["drv_float.cpp", R + "/igris/util/numconvert.c"], flags=["-fno-access-control"], objs=[o, o2])
+    return ctx.cxx("drv_float", ["drv_float.cpp", R + "/igris/util/numconvert.c", R + "/igris/dprint/dprint_func_impl.c"], flags=["-fno-access-control"], objs=[o, o2])
 
 
 def f32bits(x):
@@ -109,6 +109,21 @@ def check(ctx):
             script.append("F64 %d %d %d %s" % (q >> 32, q & 0xffffffff, p, rng.choice(["f64toa", "ftoa"]))); nrender += 1
             if not ctx.thorough or i % 10: break
         if i % 400 == 399: script.append("R")
+    # the debug printers (igris/dprint): supported magnitudes below 2^64, precisions 0..10
+    script.append("R")
+    for i, b in enumerate(pats):
+        x = struct.unpack("<f", struct.pack("<I", b))[0]
+        if x == x and abs(x) >= 1.8e19 and abs(x) != float("inf"): continue
+        for d in ((x, "dprint_float"), (x * (1 + 2.0 ** -30), "dprint_double"), (float(int(x)) + 0.5 if abs(x) < 1e15 else x, "dprint_double")):
+            q = f64bits(d[0])
+            script.append("Dpr %d %d %d %s" % (q >> 32, q & 0xffffffff, rng.randrange(0, 11), d[1])); nrender += 1
+            if not ctx.thorough and i % 3: break
+        if i % 400 == 399: script.append("R")
+    for x in (0.999, 0.9999999999, 1.999, 9.995, 0.5, 1.5, 2.5, 0.05, 1.0, 100.0, 0.0, -0.0, 1.005, 123456789.987654321, 18446744073709549568.0, float("inf"), float("-inf"), float("nan")):
+        q = f64bits(x)
+        for p in range(0, 11):
+            script.append("Dpr %d %d %d dprint_double" % (q >> 32, q & 0xffffffff, p)); nrender += 1
+    script.append("R")
     for x in (1e300, -1e300, 1e39, 5e-324, 2.0 ** 31, 2.0 ** 31 - 0.5, 2147483647.999, float("inf"), float("-inf"), float("nan")):
         q = f64bits(x)
         for p in (-1, 0, 5, 10, 12):
@@ -150,6 +165,9 @@ def value_of(e, pfx):
 def line_of(e):
     if e["e"] == "Parse":
         return "Parse %s %s %d" % (e["fn"], fmt(e["text"]), 0 if e["end"] == -1 else 1)
+    if e["fn"].startswith("dprint"):
+        q = f64bits(value_of(e, "x_"))
+        return "Dpr %d %d %d %s" % (q >> 32, q & 0xffffffff, e["prec"], e["fn"])
     if e["fn"] == "f32toa":
         return "F32 %d %d" % (f32bits(value_of(e, "x_")), e["prec"])
     q = f64bits(value_of(e, "x_"))
